@@ -886,7 +886,8 @@ theorem processRequestTarget_spec (strict : Bool) (r : ReqLine) (t : List UInt8)
         (specArgs (argView strict) (queryOf t)).map (fun kv => (Gen.Http.kindGetArgument, kv.1, kv.2)) ∧
       (∀ el ∈ T.elems, HSP.ElemIn el r.tgt (r.tgt + t.length)) ∧
       T.buf.size = r.buf.size ∧ (∀ j, j < r.tgt ∨ r.tgt + t.length < j → T.buf[j]? = r.buf[j]?) ∧
-      T.rb = r.rb ∧ T.method = r.method ∧ T.version = r.version ∧ T.httpVer = r.httpVer := by
+      T.rb = r.rb ∧ T.method = r.method ∧ T.version = r.version ∧ T.httpVer = r.httpVer ∧
+      T.methodLen = r.methodLen ∧ T.mthd = r.mthd ∧ T.crSp = r.crSp := by
   have hsz : r.tgt + t.length < r.buf.size := h.str.size_lt t.length (by simp)
   have hraw : rdRange r.buf r.tgt r.tgtLen = some t := by
     rw [h.len]
@@ -899,7 +900,7 @@ theorem processRequestTarget_spec (strict : Bool) (r : ReqLine) (t : List UInt8)
     obtain ⟨b2, n, e, ok, hn⟩ := unescape_spec strict r.buf r.tgt t h.str h.nonul
     subst hn
     simp only [e]
-    refine ⟨_, rfl, rfl, rfl, ok.view, ok.str, by simp [specArgs_nil], by simp, ok.size, ?_, rfl, rfl, rfl, rfl⟩
+    refine ⟨_, rfl, rfl, rfl, ok.view, ok.str, by simp [specArgs_nil], by simp, ok.size, ?_, rfl, rfl, rfl, rfl, rfl, rfl, rfl⟩
     intro j hj; exact ok.out j hj
   | some i =>
     have hi := idxOf_lt hq
@@ -926,7 +927,7 @@ theorem processRequestTarget_spec (strict : Bool) (r : ReqLine) (t : List UInt8)
     subst hn2
     rw [hlt] at ok2
     simp only [e2]
-    refine ⟨_, rfl, rfl, rfl, ok2.view, ok2.str, ?_, ?_, by rw [ok2.size, hs1]; simp, ?_, rfl, rfl, rfl, rfl⟩
+    refine ⟨_, rfl, rfl, rfl, ok2.view, ok2.str, ?_, ?_, by rw [ok2.size, hs1]; simp, ?_, rfl, rfl, rfl, rfl, rfl, rfl, rfl⟩
     · rw [← hview1]
       apply List.map_congr_left
       intro el hel
